@@ -1,3 +1,15 @@
--- Root of the `HalmosVerif` library: property files (each pulls in its model, spec and lemmas).
-import HalmosVerif.Spec.Word
-import HalmosVerif.Model.Term
+-- Root of the `HalmosVerif` library: the property files (each pulls in its model, spec and lemmas).
+import HalmosVerif.Props.C01
+import HalmosVerif.Props.C04
+import HalmosVerif.Props.C06
+import HalmosVerif.Props.C11
+import HalmosVerif.Props.C12
+import HalmosVerif.Props.C16
+import HalmosVerif.Props.C17
+import HalmosVerif.Props.C18
+import HalmosVerif.Props.C19
+import HalmosVerif.Props.C13Tables
+import HalmosVerif.Props.C08Tables
+import HalmosVerif.Props.C08OffsetMap
+import HalmosVerif.Props.KeccakAgree
+import HalmosVerif.Lemmas.ConfigBridge
